@@ -402,6 +402,8 @@ def runner_harness_exit():
 def _probe_count(name, pv):
     if not isinstance(pv, dict):
         return 0
+    if name == 'contracts':
+        return pv.get('invariant_evals', 0) + pv.get('post_evals', 0)
     for k in ('n', 'calls', 'sets', 'appends', 'ngets', 'nv'):
         if k in pv and isinstance(pv[k], int):
             return pv[k]
